@@ -40,7 +40,10 @@ def document_witness(chk):
         if k == 'From': return num(v) >= num(vs['a'])
         if k == 'Until': return num(v) < num(vs['b'])
         return num(v) >= num(vs['a']) and (num(v) < num(vs['b']) or (num(v) == num(vs['b']) and vs['a'] == vs['b']))
-    ok = r.get('same_across_orders') and r.get('same_twice') and r.get('refs_resolve') and 'per_version' in r
+    st = r.get('shared_type') or {}
+    # a named type used as a query member and in a body: published once, with the annotations of its processed form
+    shared_ok = st.get('example') == 'ByName' and 'description' in st and sorted(x.get('enum', [None])[0] for x in st.get('oneOf', [])) == ['ById', 'ByName']
+    ok = r.get('same_across_orders') and r.get('same_twice') and r.get('refs_resolve') and 'per_version' in r and shared_ok
     if ok:
         for pv in r['per_version']:
             want = sorted([[e['path'], e['method'], e['id']] for e in eps if e.get('visible', True) and inr(e['versions'], pv['version'])] + [['/zz-doc', 'GET', 'doc_endpoint']])
